@@ -83,6 +83,44 @@ def task_tables(dummy):
                     chk.harness_errors.append("oracle depth wrong for %s: %r vs derived %r" % (label, val, depth))
                 elif not ok:
                     chk.counterexamples.append({"vc": "%s: MAX_SEVERITY" % label, "replay": {"kind": "c02_table", "class": name, "level": str(level), "repo_depth": val, "derived_depth": depth}})
+    # the lookup table of the current source against the pinned copy of the official one: every
+    # entry is the score of that macrovector's highest-severity vectors, so a differing entry is
+    # witnessed by such a vector (complete over the 270 entries; the forks then establish that the
+    # algorithm around the table is the specification's)
+    from spec.cvss4_lookup import LOOKUP
+
+    repo_lookup = mod.globals["CVSS_LOOKUP_GLOBAL"]
+    repo_lookup = dict(repo_lookup) if not isinstance(repo_lookup, dict) else repo_lookup
+    nbad = 0
+    for mv in sorted(set(LOOKUP) | set(repo_lookup)):
+        a, b = LOOKUP.get(mv), repo_lookup.get(mv)
+        if a is None or b is None or float(a) != float(b):
+            nbad += 1
+            name = "lookup[%s]: current source %r, official table %r" % (mv, b, a)
+            chk.add_vc(name, "sat", 0, 0)
+            vec = None
+            try:
+                d = [int(c) for c in mv]
+                vals = {}
+                vals.update(S.EQ1_MAX[d[0]][0])
+                vals.update(S.EQ2_MAX[d[1]][0])
+                vals.update(S.EQ36_MAX[(d[2], d[5])][0])
+                vals.update(S.EQ4_MAX[d[3]][0])
+                vals["E"] = {0: "A", 1: "P", 2: "U"}[d[4]]
+                if vals.get("SI") == "S":
+                    vals["MSI"], vals["SI"] = "S", "H"
+                if vals.get("SA") == "S":
+                    vals["MSA"], vals["SA"] = "S", "H"
+                from spec import grammar as G
+
+                vec = "CVSS:4.0/" + "/".join("%s:%s" % (m_, vals[m_]) for m_, _ in G.V4["metrics"] if m_ in vals)
+            except Exception:  # noqa: BLE001
+                vec = None
+            if vec is not None:
+                chk.counterexamples.append({"vc": name, "replay": {"kind": "scores", "version": 4, "vector": vec}})
+            else:
+                chk.counterexamples.append({"vc": name, "replay": {"kind": "c02_table", "class": "lookup", "level": mv}})
+    chk.add_vc("CVSS_LOOKUP_GLOBAL of the current source equals the pinned official table (%d entries)" % len(LOOKUP), "unsat" if not nbad else "sat", 0, 0, trivial=True)
     chk.extra["derived_classes"] = nclasses
     chk.files.update(sess.it.files_read)
     return chk.to_dict()
